@@ -131,11 +131,12 @@ RootDefs(T, ctx) ==
     [] ctx = "message"  -> << [name |-> "Root", kind |-> "message", fields |-> MsgFields(T, FALSE)] >>
     [] ctx = "depmsg"   -> << [name |-> "Root", kind |-> "message", fields |-> MsgFields(T, TRUE)] >>
     [] ctx = "union"    -> << [name |-> "Root", kind |-> "union",
-                               branches |-> << [idx |-> 1, n |-> "RootA"], [idx |-> 2, n |-> "RootB"] >>],
+                               branches |-> << [idx |-> 1, n |-> "RootA"], [idx |-> 2, n |-> "RootB"], [idx |-> 9, n |-> "RootC"] >>],
                               [name |-> "RootA", kind |-> "struct", ro |-> FALSE, inner |-> "Root",
                                fields |-> StructFields(T)],
                               [name |-> "RootB", kind |-> "message", inner |-> "Root",
-                               fields |-> << MFld(1, "f", T, FALSE) >>] >>
+                               fields |-> << MFld(1, "f", T, FALSE) >>],
+                              [name |-> "RootC", kind |-> "struct", ro |-> FALSE, inner |-> "Root", fields |-> <<>>] >>
 
 NShapes == Len(Shapes)
 NCtx == Len(Ctxs)
